@@ -160,7 +160,8 @@ Definition stray_yield (pre : list event) (y i : N) (iopts : dict) : Prop :=
 (** the INTERRUPT stops a pending invocation: CANCEL of its caller, or its timeout *)
 Definition interrupted_pending (cfg : config) (ops : list op) (pre : list event) (y i : N) (iopts : dict) : Prop :=
   exists reason mode, iopts = [("reason", vuri reason); ("mode", vstr mode)] /\
-  exists ops1 o ops2 outs, ops = ops1 ++ o :: ops2 /\ pre = trace cfg ops1 ++ EIn o :: map EOut outs /\
+  exists ops1 o ops2 outs outs2, ops = ops1 ++ o :: ops2 /\ pre = trace cfg ops1 ++ EIn o :: map EOut outs /\
+  snd (step (fst (run (init_realm cfg) ops1)) o) = outs ++ (y, RInterrupt i iopts) :: outs2 /\
   (* the callee announced call_canceling *)
   (exists ys, find_session (r_clients (fst (run (init_realm cfg) ops1))) y = Some ys /\
               sess_feature ys "callee" f_call_canceling = true) /\
@@ -249,8 +250,8 @@ Proof.
     { intros k1 inv mode Hi Ec Hcan Hcc Em Hmode Hcm.
       destruct (Pend k1 inv e_canceled mode Hi Hcan Hcc Em) as (Ek & Eio & Hfeat & pre0 & rid & det & rest & proc & a & kw & orc' & Etr & P1 & P2 & P3 & P4 & _).
       rewrite Ec in *. cbn [fst snd] in *.
-      exists e_canceled, mode. split; [exact Eio|]. exists ops1, o, ops2, outs1. split; [exact Eops|]. split; [exact Epre|].
-      split; [exact Hfeat|]. exists pre0, sid, req, (inv_opts inv), proc, a, kw, orc', rid, det, rest.
+      exists e_canceled, mode. split; [exact Eio|]. exists ops1, o, ops2, outs1, outs2. split; [exact Eops|]. split; [exact Epre|].
+      split; [exact Eout|]. split; [exact Hfeat|]. exists pre0, sid, req, (inv_opts inv), proc, a, kw, orc', rid, det, rest.
       split; [exact Etr|]. split; [exact P1|]. split; [exact P2|]. split; [exact P3|]. split; [exact P4|].
       left. split; [reflexivity|]. split; [exact Hmode|]. exists copts, orc. auto. }
     destruct K1 as (_ & _ & [(_ & _ & Ki)|(k1 & inv & Hi & Ec & Hcan & Hcc & Hmode & _ & Eo)]).
@@ -267,8 +268,8 @@ Proof.
     destruct (Km m Hm) as (tid & dl & cid & k1 & inv & Htm & Hdl & Hi & Ec & Hti & Hcan & _ & [Em|(Hcc & Em)]); [discriminate Em|].
     destruct (Pend k1 inv e_timeout "killnowait" Hi Hcan Hcc Em) as (Ek & Eio & Hfeat & pre0 & rid & det & rest & proc & a & kw & orc' & Etr & P1 & P2 & P3 & P4 & Pt).
     destruct (Pt tid dl cid Hti Htm) as (Hlt & Harm).
-    exists e_timeout, "killnowait". split; [exact Eio|]. exists ops1, o, ops2, outs1. split; [exact Eops|]. split; [exact Epre|].
-    split; [exact Hfeat|].
+    exists e_timeout, "killnowait". split; [exact Eio|]. exists ops1, o, ops2, outs1, outs2. split; [exact Eops|]. split; [exact Epre|].
+    split; [exact Eout|]. split; [exact Hfeat|].
     exists pre0, (fst (inv_call inv)), (snd (inv_call inv)), (inv_opts inv), proc, a, kw, orc', rid, det, rest.
     split; [exact Etr|]. split; [exact P1|]. split; [rewrite <- surjective_pairing; exact P2|]. split; [exact P3|]. split; [exact P4|].
     right. split; [reflexivity|]. split; [reflexivity|]. exists ms, dl. split; [exact Eop|]. split; [exact Harm|].
